@@ -37,6 +37,7 @@ type Profile struct {
 	Visits      bool
 	IllTyped    bool
 	NumberForms bool
+	LongRuns    bool // longer node bodies, and half of the nodes end with a jump: runs use all their operations
 }
 
 type G struct {
@@ -434,7 +435,15 @@ func RunCase(r *prng.R, p *Profile, id string) *sexp.S {
 			n.Tracking = r.Pick("never", "always")
 		}
 		n.Body = append(n.Body, &ast.Stmt{Kind: "line", Line: &ast.Line{Els: []ast.El{{Text: "enter " + t}}}})
-		n.Body = append(n.Body, g.body(0, 1+r.Intn(6))...)
+		if p.LongRuns {
+			n.Body = append(n.Body, g.body(0, 3+r.Intn(8))...)
+			if r.Intn(2) == 0 {
+				// keep the dialogue going: the node hands over to another one (every node starts with a line, so this stays Productive)
+				n.Body = append(n.Body, &ast.Stmt{Kind: "jump", JumpID: r.Intn(2) == 0, E: ast.Str(g.titles[r.Intn(len(g.titles))])})
+			}
+		} else {
+			n.Body = append(n.Body, g.body(0, 1+r.Intn(6))...)
+		}
 		prog.Nodes = append(prog.Nodes, n)
 	}
 	var layout *ast.Layout
@@ -455,16 +464,23 @@ func RunCase(r *prng.R, p *Profile, id string) *sexp.S {
 		cut += k
 	}
 	vars := sexp.L(sexp.A("vars"))
-	if r.Intn(2) == 0 {
+	// the variables the expressions read are usually there (an unknown variable is an error: wanted, but not in every line)
+	have := func() bool {
+		if p.Faults >= 4 {
+			return r.Intn(2) == 0
+		}
+		return r.Intn(8) != 0
+	}
+	if have() {
 		vars.Add(sexp.L(sexp.Str("n"), value(r, "num")))
 	}
-	if r.Intn(2) == 0 {
+	if have() {
 		vars.Add(sexp.L(sexp.Str("b"), value(r, "bool")))
 	}
-	if r.Intn(2) == 0 {
+	if have() {
 		vars.Add(sexp.L(sexp.Str("s"), value(r, "str")))
 	}
-	if r.Intn(4) == 0 {
+	if have() {
 		vars.Add(sexp.L(sexp.Str("m"), value(r, "num")))
 	}
 	ops := sexp.L(sexp.A("ops"))
@@ -532,7 +548,7 @@ var baseWeights = map[string]int{"line": 8, "opts": 3, "if": 3, "set": 4, "decla
 
 // Profiles of the run stream, by name.
 var Profiles = map[string]*Profile{
-	"flow": {Name: "flow", MaxNodes: 4, Weights: baseWeights, ExprDepth: 2, Faults: 1, Ops: 30, Untracked: true, Tags: true},
+	"flow": {Name: "flow", LongRuns: true, MaxNodes: 4, Weights: baseWeights, ExprDepth: 2, Faults: 1, Ops: 40, Untracked: true, Tags: true},
 	// biased to reach an end: short bodies, many stops, few jumps; the trailing next calls probe the ended state
 	"end": {Name: "end", MaxNodes: 2, Weights: map[string]int{"line": 6, "opts": 4, "if": 3, "set": 3, "declare": 1, "jump": 1, "cmd": 2, "call": 2, "stop": 3},
 		ExprDepth: 1, Faults: 0, Ops: 24, HostWrites: 1},
@@ -542,15 +558,15 @@ var Profiles = map[string]*Profile{
 	// every statement position may hold a faulty expression; out-of-domain arguments
 	"faults": {Name: "faults", MaxNodes: 3, Weights: baseWeights, ExprDepth: 2, Faults: 8, Ops: 30, Numeric: true, Random: true},
 	// snapshots and restores into several runners of the same script
-	"snap": {Name: "snap", MaxNodes: 4, Weights: map[string]int{"line": 8, "opts": 3, "if": 2, "set": 5, "declare": 1, "jump": 4, "cmd": 2, "call": 1, "stop": 1},
+	"snap": {Name: "snap", LongRuns: true, MaxNodes: 4, Weights: map[string]int{"line": 8, "opts": 3, "if": 2, "set": 5, "declare": 1, "jump": 4, "cmd": 2, "call": 1, "stop": 1},
 		ExprDepth: 1, Faults: 0, Ops: 40, SnapOps: 5, Runners: 3, HostWrites: 1, Ctl: true, Untracked: true},
 	// random built-ins in lines, conditions and assignments
-	"rand": {Name: "rand", MaxNodes: 3, Weights: baseWeights, ExprDepth: 2, Faults: 0, Ops: 30, Random: true, RandomHeavy: true},
+	"rand": {Name: "rand", LongRuns: true, MaxNodes: 3, Weights: baseWeights, ExprDepth: 2, Faults: 0, Ops: 30, Random: true, RandomHeavy: true},
 	// commands with controlled completion
-	"cmds": {Name: "cmds", MaxNodes: 2, Weights: map[string]int{"line": 6, "opts": 1, "if": 1, "set": 2, "declare": 0, "jump": 1, "cmd": 8, "call": 1, "stop": 1},
+	"cmds": {Name: "cmds", LongRuns: true, MaxNodes: 2, Weights: map[string]int{"line": 6, "opts": 1, "if": 1, "set": 2, "declare": 0, "jump": 1, "cmd": 8, "call": 1, "stop": 1},
 		ExprDepth: 1, Faults: 0, Ops: 36, Ctl: true, SnapOps: 1},
 	// jump graphs with tracked and untracked nodes; visit counters rendered in lines
-	"visits": {Name: "visits", MaxNodes: 4, Weights: map[string]int{"line": 6, "opts": 3, "if": 2, "set": 1, "declare": 0, "jump": 7, "cmd": 0, "call": 0, "stop": 0},
+	"visits": {Name: "visits", LongRuns: true, MaxNodes: 4, Weights: map[string]int{"line": 6, "opts": 3, "if": 2, "set": 1, "declare": 0, "jump": 7, "cmd": 0, "call": 0, "stop": 0},
 		ExprDepth: 1, Faults: 1, Ops: 40, Untracked: true, SnapOps: 2, Runners: 2, Visits: true},
 	// deep expressions of every type with probes
 	// (statements are re-evaluated: nodes are re-entered by jumps and runners rewound by restores, so an evaluation that
@@ -558,12 +574,12 @@ var Profiles = map[string]*Profile{
 	"expr": {Name: "expr", MaxNodes: 2, Weights: map[string]int{"line": 10, "opts": 0, "if": 2, "set": 3, "declare": 0, "jump": 2, "cmd": 0, "call": 3, "stop": 0},
 		ExprDepth: 5, Faults: 2, Ops: 22, Numeric: true, IllTyped: true, SnapOps: 2, Runners: 1},
 	// line texts with escapes, multi-byte characters, tags, option conditions
-	"lines": {Name: "lines", MaxNodes: 2, Weights: map[string]int{"line": 10, "opts": 5, "if": 1, "set": 2, "declare": 0, "jump": 1, "cmd": 0, "call": 0, "stop": 0},
+	"lines": {Name: "lines", LongRuns: true, MaxNodes: 2, Weights: map[string]int{"line": 10, "opts": 5, "if": 1, "set": 2, "declare": 0, "jump": 1, "cmd": 0, "call": 0, "stop": 0},
 		ExprDepth: 2, Faults: 0, Ops: 24, Multibyte: true, Escapes: true, Tags: true, Numeric: true, NumberForms: true},
 	// the same as flow, rendered in random layouts (indent unit, noise lines, line ends, spellings, parentheses, spacing)
-	"layout": {Name: "layout", MaxNodes: 4, Weights: baseWeights, ExprDepth: 3, Faults: 0, Ops: 24, Untracked: true, Tags: true, Layout: RandomLayout},
+	"layout": {Name: "layout", LongRuns: true, MaxNodes: 4, Weights: baseWeights, ExprDepth: 3, Faults: 0, Ops: 24, Untracked: true, Tags: true, Layout: RandomLayout},
 	// markup in lines shown after different prefixes
-	"markuprun": {Name: "markuprun", MaxNodes: 2, Weights: map[string]int{"line": 12, "opts": 3, "if": 1, "set": 1, "declare": 0, "jump": 2, "cmd": 0, "call": 0, "stop": 0},
+	"markuprun": {Name: "markuprun", LongRuns: true, MaxNodes: 2, Weights: map[string]int{"line": 12, "opts": 3, "if": 1, "set": 1, "declare": 0, "jump": 2, "cmd": 0, "call": 0, "stop": 0},
 		ExprDepth: 1, Faults: 0, Ops: 30, Markup: true, Multibyte: true},
 }
 
